@@ -363,7 +363,7 @@ def job_termination():
                 if isinstance(lp, ast.While) or status != "finite-for":
                     led.record(oname, "decreases", "discharged", "path-analysis", 0.0, detail=f"`{header[:60]}`: {detail}")
                 continue
-            key = next((kk for kk in DECLARED if kk[0] == name and kk[1] == fname and kk[2] == k and kk[3] in header), None)
+            key = next((kk for kk in DECLARED if kk[0] == name and kk[1] == fname and kk[2] == k and (kk[3] in header or (kk[3] == "True" and header.strip() == "lit"))), None)  # `while True:` + next(lit) and `for line in lit:` are the same loop
             if key is not None:
                 counts["declared"] += 1
                 declared_used.append({"loop": f"{mod.__name__}.{fname} loop {k} `{header[:60]}`", "declared_argument": DECLARED[key]})
